@@ -317,7 +317,17 @@ def r5(ctx, regions):
         text = r["text"].replace(" ", "")
         detail = {"file": r["file"], "function": r["fn"], "binds": r["lets"], "text": r["text"][:200]}
         name = r["lets"][0]
-        # is the name visible to ungated code?  (conservative: any gated let is checked)
+        # a gated let matters only when it shadows a name that also exists without the feature
+        shadows = set()
+        for a in PA.lib_bodies("asn1rs"):
+            if a.file == r["file"] and (a.name == r["fn"] or (a.root or "").split("::")[-1] == r["fn"]
+                                        or r["fn"] in (a.root or "")):
+                shadows |= set(a.names.values()) & set(r["lets"])
+        if not shadows:
+            detail["shadows"] = []
+            ctx.ok(rule, key, detail, nontrivial=False)
+            continue
+        detail["shadows"] = sorted(shadows)
         m = re.search(r"let%s=%s\.map_err\(" % (re.escape(name), re.escape(name)), text)
         if not m or len(r["lets"]) != 1 and set(r["lets"]) - {name, "e"}:
             ctx.fail(rule, key, "gated `let %s` binds a name that ungated code can read and is not the reviewed map_err form" % name,
